@@ -18,6 +18,43 @@ var arches = []string{"amd64", "arm64"}
 // Generate builds the case of a stream from its own seed (so a case can be
 // regenerated from "stream:genseed" alone).
 func Generate(genseed uint64, stream string, thorough bool) *Case {
+	if stream == "schedenum" {
+		// schedule enumeration: a small graph with real fan-out (a node with >= 2 distinct successors, or a
+		// shared successor), memory stores, few scheduling points
+		r := common.NewRand(genseed)
+		var cands []int
+		for i, sg := range SmallGraphs() {
+			for _, n := range sg.Nodes {
+				seen := map[int]bool{}
+				for _, x := range n.Succ {
+					seen[x] = true
+				}
+				if len(seen) >= 2 && len(sg.Preds(n.ID)) == 0 && len(sg.Nodes) <= 4 {
+					cands = append(cands, i)
+					break
+				}
+			}
+		}
+		sg := SmallGraphs()[common.Pick(r, cands)]
+		root := 0
+		for _, n := range sg.Nodes {
+			seen := map[int]bool{}
+			for _, x := range n.Succ {
+				seen[x] = true
+			}
+			if len(seen) >= 2 && len(sg.Preds(n.ID)) == 0 {
+				root = n.ID
+			}
+		}
+		c := &Case{Stream: stream, Graph: sg.Encode(), Root: root, MapRoot: -1, FailNode: -1, PreTag: -1,
+			K: common.Pick(r, []int{2, 2, 3}), Mode: common.Pick(r, []string{"g", "t", "r"}), Src: "mem", Dst: "mem",
+			SrcRef: "v1", Seed: r.U64(), GenSeed: genseed, Thorough: thorough, Sched: true, Enum: true,
+			CbSet: common.Pick(r, []string{"00000", "00000", "01100"})}
+		if r.Chance(1, 3) {
+			c.D0 = []int{0}
+		}
+		return c
+	}
 	if stream == "small" {
 		c := smallCase(genseed)
 		c.GenSeed, c.Thorough = genseed, thorough
@@ -37,6 +74,8 @@ func Generate(genseed uint64, stream string, thorough bool) *Case {
 		o.MinNodes = 4
 	case "twinreach":
 		o.MinNodes = 4
+	case "schedenum":
+		o.MinNodes, o.MaxNodes, o.Foreign = 2, 4, false
 	}
 	var g *dag.Graph
 	for {
@@ -71,7 +110,7 @@ func Generate(genseed uint64, stream string, thorough bool) *Case {
 			}
 		}
 	}
-	if stream != "twin" && stream != "twinreach" && stream != "mount" && stream != "sched" && !remoteMount && r.Chance(1, 4) {
+	if stream != "twin" && stream != "twinreach" && stream != "mount" && stream != "sched" && stream != "schedenum" && !remoteMount && r.Chance(1, 4) {
 		addBlobTwin(r, g)
 	}
 	c := &Case{Stream: stream, Graph: g.Encode(), MapRoot: -1, FailNode: -1, PreTag: -1, GenSeed: genseed, Seed: r.U64(), Thorough: thorough}
@@ -410,6 +449,14 @@ func Generate(genseed uint64, stream string, thorough bool) *Case {
 			c.Mount = true
 			c.MapRoot, c.Platform = -1, ""
 		}
+	case "schedenum":
+		// schedule enumeration: tiny graph, memory stores, few scheduling points
+		c.Sched, c.Enum = true, true
+		c.K = common.Pick(r, []int{1, 2, 2, 3})
+		c.Src, c.Dst = "mem", "mem"
+		c.MapRoot, c.Platform, c.Mount, c.RefFetch = -1, "", false, false
+		c.CbSet = common.Pick(r, []string{"00000", "00000", "01100"})
+		c.Root = bigRoot()
 	case "sched":
 		// controlled schedules (testing/synctest): contention matters, so small K
 		c.Sched = true
